@@ -360,6 +360,10 @@ func init() {
 		return Int{C: math.Float64bits(f.C)}
 	})
 	reg("math/rand.Float64", func(g *G, fr *Frame, fn *ssa.Function, a []Value) Value {
+		if g.run.B.Params["symrand"] != 1 {
+			g.model("math/rand.Float64 returns 0.25 (jitter is symbolic only in the back-off kernel harnesses)")
+			return F64{C: 0.25}
+		}
 		g.model("math/rand.Float64 returns an arbitrary r with 0 <= r < 1")
 		t := Var(g.run.fresh("rand"), SFP, 0)
 		g.run.inputs = append(g.run.inputs, t)
